@@ -42,60 +42,9 @@ def run(prog: Program, ctx: Ctx) -> None:  # noqa: PLR0912,PLR0915
     # ------------------------------------------------------------------ R2
     ctx.rule("R2", "expand_wildcards: an existing member is overwritten exactly when the wildcard import sits on a later line (missing line = 0); "
                    "the alias is added iff it is not a self-alias and (the name is new or overwrite)")
-    xw = prog.function(f"{L}.expand_wildcards")
-    from pathlib import PurePosixPath as _PP
+    from sa.importrules import wildcard_table
 
-    from sa.absint import Native, Obj
-
-    itw = Interp(prog, max_depth=60, max_steps=3_000_000)
-    MD = "_griffe.models"
-
-    def new(cls: str, *a: object, **k: object) -> Obj:
-        return itw._construct(prog.cls(f"{MD}.{cls}"), list(a), dict(k))
-
-    def setm(o: Obj, n: str, v: Obj) -> None:
-        itw.call(prog.lookup_method(o.cls, "set_member")[0], o, n, v)
-
-    n_rows = 0
-    for old_kind, old_line, star_line in itertools.product(("none", "attribute", "alias", "alias back to the importing module"), (None, 2, 4), (1, 3, 5)):
-        if old_kind == "none" and old_line is not None:
-            continue
-        coll = itw._construct(prog.cls("_griffe.collections.ModulesCollection"), [], {})
-        pkg = new("Module", "pkg", filepath=_PP("/s/pkg/__init__.py"))
-        setm(coll, "pkg", pkg)
-        a, b = new("Module", "a", filepath=_PP("/s/pkg/a.py")), new("Module", "b", filepath=_PP("/s/pkg/b.py"))
-        setm(pkg, "a", a)
-        setm(pkg, "b", b)
-        for nm, ln in (("x", 1), ("y", 2), ("_p", 3)):
-            setm(a, nm, new("Attribute", nm, lineno=ln, endlineno=ln))
-        if old_kind == "alias back to the importing module":
-            setm(a, "z", new("Alias", "z", "pkg.b.z", lineno=4, endlineno=4))  # `from pkg.b import z` in a: star-importing it into b would alias b.z to itself
-            setm(b, "z", new("Attribute", "z", lineno=old_line, endlineno=old_line))
-        elif old_kind == "attribute":
-            setm(b, "x", new("Attribute", "x", lineno=old_line, endlineno=old_line))
-        elif old_kind == "alias":
-            setm(b, "x", new("Alias", "x", "other.x", lineno=old_line, endlineno=old_line))
-        setm(b, "pkg/a/*", new("Alias", "pkg/a/*", "pkg.a", lineno=star_line, endlineno=star_line))
-        loader = Obj(prog.cls(L), {"modules_collection": coll, "extensions": Obj(None, {"call": Native(lambda *_a, **_k: None)})}, label="loader")
-        itw.steps = 0
-        try:
-            itw.call(xw, loader, pkg)
-            got = {k_: (v_.cls.name, v_.attrs.get("target_path"), v_.attrs.get("alias_lineno") if v_.cls.name == "Alias" else v_.attrs.get("lineno")) for k_, v_ in b.attrs["members"].items()}
-        except Raised as r:
-            got = {"<raises>": r.exc}
-        star_wins = star_line > (old_line or 0)
-        want = {"y": ("Alias", "pkg.a.y", star_line)}
-        if old_kind == "alias back to the importing module":
-            want["x"] = ("Alias", "pkg.a.x", star_line)
-            want["z"] = ("Attribute", None, old_line)  # never replaced by an alias to itself
-        elif old_kind == "none" or star_wins:
-            want["x"] = ("Alias", "pkg.a.x", star_line)
-        else:
-            want["x"] = ("Attribute", None, old_line) if old_kind == "attribute" else ("Alias", "other.x", old_line)
-        n_rows += 1
-        ctx.ob("R2", f"wildcard|existing={old_kind}@{old_line}|star@{star_line}", got == want,
-               f"`from pkg.a import *` on line {star_line} of pkg.b, existing member: {old_kind} on line {old_line}: members of pkg.b {got}; at run time {want}", where(xw))
-    ctx.expect_min("R2", n_rows, 25)
+    wildcard_table(prog, ctx, "R2")
 
     # ------------------------------------------------------------------ R3
     ctx.rule("R3", "every public attribute / property / method of Object, Module, Class, Function, Attribute exists on Alias; each proxy reads the "
